@@ -204,10 +204,6 @@ def make_logic(config, trace: Trace, faults=None):
                 raise RuntimeError("fault:" + _n)
         actions[n] = act
 
-    def inc(i, ctx, ev, ad):
-        ctx["n"] = ctx.get("n", 0) + 1
-        trace.actions.append(("inc", getattr(ev, "type", "?")))
-    actions["inc"] = inc
 
     def gX(ctx, ev):
         trace.guards.append("gX")
@@ -215,6 +211,54 @@ def make_logic(config, trace: Trace, faults=None):
     guards = {"gT": lambda c, e: True, "gF": lambda c, e: False, "gX": gX,
               "gOdd": lambda c, e: c.get("n", 0) % 2 == 1}
     return MachineLogic(actions=actions, guards=guards)
+
+
+def error_log():
+    """ERROR-level messages the library logged so far (captured by check.py)."""
+    import sys
+    mod = sys.modules.get("__main__")
+    cap = getattr(mod, "_Capture", None)
+    return cap.records if cap else []
+
+
+def limit_hits(since=0):
+    return [m for m in error_log()[since:] if "Exceeded" in m]
+
+
+def materialize(config):
+    """Deep copy of a generated (JSON-able) config with the marker action "inc"
+    replaced by the built-in assign action (a context update every engine,
+    including the pure API, must apply)."""
+    def inc(args):
+        return {"n": args["context"].get("n", 0) + 1}
+
+    def fix_actions(lst):
+        return [({"type": "xstate.assign", "params": {"assignment": inc}} if a == "inc" else a) for a in lst]
+
+    def tr(t):
+        if isinstance(t, dict):
+            t = dict(t)
+            if "actions" in t:
+                t["actions"] = fix_actions(t["actions"])
+            return t
+        if isinstance(t, list):
+            return [tr(x) for x in t]
+        return t
+
+    def walk(c):
+        c = dict(c)
+        for k in ("entry", "exit"):
+            if k in c:
+                c[k] = fix_actions(c[k])
+        if "on" in c:
+            c["on"] = {e: tr(v) for e, v in c["on"].items()}
+        for k in ("always", "onDone"):
+            if k in c:
+                c[k] = tr(c[k])
+        if "states" in c:
+            c["states"] = {k: walk(v) for k, v in c["states"].items()}
+        return c
+    return walk(copy.deepcopy(config))
 
 
 def snapshot_of(interp):
@@ -225,7 +269,7 @@ def snapshot_of(interp):
 def run_sync(config, events, faults=None, observer=None):
     from xstate_statemachine import SyncInterpreter, create_machine
     tr = Trace()
-    m = create_machine(copy.deepcopy(config), logic=make_logic(config, tr, faults))
+    m = create_machine(materialize(config), logic=make_logic(config, tr, faults))
     it = SyncInterpreter(m)
     if observer:
         observer(it)
@@ -259,7 +303,7 @@ def run_async(config, events, faults=None):
 
     async def go():
         tr = Trace()
-        m = create_machine(copy.deepcopy(config), logic=make_logic(config, tr, faults))
+        m = create_machine(materialize(config), logic=make_logic(config, tr, faults))
         it = Interpreter(m)
         steps, errs = [], []
         count = {"n": 0}
@@ -303,7 +347,7 @@ def run_pure(config, events):
     from xstate_statemachine import create_machine
     from xstate_statemachine.helpers import initial_transition, transition
     tr = Trace()
-    m = create_machine(copy.deepcopy(config), logic=make_logic(config, tr))
+    m = create_machine(materialize(config), logic=make_logic(config, tr))
     steps, acts = [], []
     snap, a = initial_transition(m)
     acts.append([x.type for x in a])
